@@ -569,3 +569,57 @@ Proof.
   rewrite (nth_indep _ None (branch_out Y om vf xs b1)) by now rewrite map_length.
   rewrite map_nth. destruct (Hall (nth n (b1 :: br) b1) (nth_In _ _ Hn)) as (y & gs & H). rewrite H. eauto.
 Qed.
+
+(* ---------------- programs that only overwrite existing variables keep the structure ---------------- *)
+Definition puts_existing (ss : list cstmt) (v : cvars) : bool :=
+  forallb (fun s => match s with KPut c k _ => match cv_entry v c (NExp k) with Some _ => true | None => false end | KCarry _ => true end) ss.
+
+Lemma nset_existing_names k v kids0 : nassoc k kids0 <> None -> map fst (nset k v kids0) = map fst kids0.
+Proof.
+  induction kids0 as [|[q w] r IH]; cbn [nassoc nset map fst]; [intros H; now contradiction H|].
+  destruct (name_eqb k q) eqn:E; cbn [map fst]; [reflexivity|]. intros H. f_equal. now apply IH.
+Qed.
+Lemma cshape_cv_set_existing c kids1 xs kids0 : cv_get c xs = Some kids0 -> map fst kids1 = map fst kids0 ->
+  cshape (cv_set c kids1 xs) = cshape xs.
+Proof.
+  induction xs as [|[d k0] r IH]; cbn [cv_get cv_set]; [discriminate|].
+  destruct (N.eqb_spec c d) as [->|Hne]; intros H Hn.
+  - inversion H; subst. unfold cshape. cbn [map fst snd]. now rewrite Hn.
+  - unfold cshape in *. cbn [map fst snd]. f_equal. now apply IH.
+Qed.
+Lemma kput_existing_shape xs c k z : cv_entry xs c (NExp k) <> None -> cshape (kput xs c k z) = cshape xs.
+Proof.
+  unfold cv_entry, kput. destruct (cv_get c xs) as [kids0|] eqn:E; [|intros H; now contradiction H].
+  intros H. apply (cshape_cv_set_existing c _ xs kids0 E). now apply nset_existing_names.
+Qed.
+Lemma cshape_entry_some a b c k : cshape a = cshape b -> (cv_entry a c k <> None <-> cv_entry b c k <> None).
+Proof.
+  intros H. pose proof (cshape_get a b H c) as G. unfold cv_entry.
+  destruct (cv_get c a) as [ka|], (cv_get c b) as [kb|]; try contradiction; [|tauto].
+  split; intros X Y; apply X.
+  - now apply (nassoc_none_names kb ka k (eq_sym G)).
+  - now apply (nassoc_none_names ka kb k G).
+Qed.
+Lemma krun_keeps_shape ss : forall v m cr c1 w, puts_existing ss v = true -> krun ss v m cr = Some (c1, w) -> cshape w = cshape v.
+Proof.
+  induction ss as [|[c k e|e] r IH]; intros v m cr c1 w Hp H; cbn [krun puts_existing forallb] in *.
+  - now inversion H.
+  - apply andb_true_iff in Hp as [Hk Hr].
+    destruct (xeval v cr e) as [z|]; [|discriminate]. destruct (m c); [|discriminate].
+    assert (He : cv_entry v c (NExp k) <> None) by (destruct (cv_entry v c (NExp k)); [discriminate|discriminate Hk]).
+    pose proof (kput_existing_shape v c k z He) as Hs.
+    assert (Hp' : puts_existing r (kput v c k z) = true); [|rewrite (IH _ _ _ _ _ Hp' H); exact Hs].
+    unfold puts_existing. apply forallb_forall. intros s Hin. unfold puts_existing in Hr. rewrite forallb_forall in Hr. specialize (Hr s Hin).
+    destruct s as [c' k' e'|e']; [|reflexivity].
+    destruct (cv_entry v c' (NExp k')) eqn:E1; [|discriminate].
+    assert (X : cv_entry (kput v c k z) c' (NExp k') <> None) by (apply (cshape_entry_some _ _ c' (NExp k') Hs); congruence).
+    destruct (cv_entry (kput v c k z) c' (NExp k')); [reflexivity|now contradiction X].
+  - destruct (xeval v cr e) as [z|]; [|discriminate]. apply andb_true_iff in Hp as [_ Hr]. exact (IH _ _ _ _ _ Hr H).
+Qed.
+Lemma cshape_filter (p : N -> bool) a b : cshape a = cshape b ->
+  cshape (filter (fun cv => p (fst cv)) a) = cshape (filter (fun cv => p (fst cv)) b).
+Proof.
+  revert b. induction a as [|[c ka] r IH]; intros [|[d kb] r'] H; unfold cshape in H; cbn [map fst snd] in H; try discriminate; [reflexivity|].
+  injection H as Hc Hk Hr. subst d. cbn [filter fst]. destruct (p c); [|now apply IH].
+  unfold cshape. cbn [map fst snd]. rewrite Hk. f_equal. apply (IH r'). exact Hr.
+Qed.
